@@ -138,13 +138,13 @@ func c06Build(d c06Desc) *c06Msg {
 	return m
 }
 
-func c06Universe() []c06Desc {
+func c06Universe(nSigners, nHeights, nRounds, nNIDs int) []c06Desc {
 	var ds []c06Desc
-	for s := 0; s < 2; s++ {
-		for h := int64(1); h <= 2; h++ {
-			for r := int32(0); r <= 1; r++ {
+	for s := 0; s < nSigners; s++ {
+		for h := int64(1); h <= int64(nHeights); h++ {
+			for r := int32(0); r < int32(nRounds); r++ {
 				for k := 0; k < 3; k++ {
-					for nid := 0; nid < 3; nid++ {
+					for nid := 0; nid < nNIDs; nid++ {
 						for dec := 0; dec < 3; dec++ {
 							for ts := 0; ts < 2; ts++ {
 								ds = append(ds, c06Desc{s, h, r, k, nid, dec, ts})
@@ -209,7 +209,7 @@ func (c06BI) Timestamp() int64 { return 1_000_000 }
 func c06World() (state.WorldContext, module.DoubleSignContextRoot) {
 	dbase := db.NewMapDB()
 	var vals []module.Validator
-	for i := 0; i < 2; i++ {
+	for i := 0; i < 3; i++ {
 		v, err := state.ValidatorFromAddress(c06Wallet(i).Address())
 		if err != nil {
 			panic(err)
@@ -432,7 +432,7 @@ func (c *c06Checker) triple(ms [3]*c06Msg) {
 
 func TestVerifC06(t *testing.T) {
 	r := ev.Start(t, "C06", "exploration")
-	r.Rule("all ordered pairs (first from copy 1, second from an independently built copy 2) of the universe signer{k1,k2} x height{1,2} x round{0,1} x kind{prevote,precommit,proposal} x nid{0,1,2} x decision{A,B,nil|C} x {timestamp t1,t2 | POLRound -1,0} = 432 messages, at IsConflictWith, a fresh dsmLog, and a DSR transaction pre-validated on a world context (direct and re-parsed); plus all ordered triples inside each (signer k1, height 1, round 0, kind) group through one dsmLog; non-trivial = pair that is a genuine conflict or fails exactly one clause of the statement")
+	r.Rule("all ordered pairs (first from copy 1, second from an independently built copy 2) of the universe signer{k1,k2} x height{1,2} x round{0,1} x kind{prevote,precommit,proposal} x nid{0,1,2} x decision{A,B,nil|C} x {timestamp t1,t2 | POLRound -1,0} = 432 messages (thorough adds the extended universe signer{k1,k2,k3} x height{1,2,3} x round{0,1,2} x nid{0,1,2,3} = 1944 messages), at IsConflictWith, a fresh dsmLog, and a DSR transaction pre-validated on a world context (direct and re-parsed); plus all ordered triples inside each (signer k1, height 1, round 0, kind) group through one dsmLog; non-trivial = pair that is a genuine conflict or fails exactly one clause of the statement")
 	r.Assume("both signers are validators of the evidence context (the validator-membership test is not the subject)",
 		"messages carry valid signatures (evidence objects cannot be built from unsigned messages: newDoubleSignDataWith*Message verifies)",
 		"oracle: evidence <=> same signer, height, round, kind, (nid equal or one of them 0), signed bytes differ")
@@ -451,62 +451,73 @@ func TestVerifC06(t *testing.T) {
 		return
 	}
 
-	descs := c06Universe()
-	copy1 := make([]*c06Msg, len(descs))
-	copy2 := make([]*c06Msg, len(descs))
-	ev.Par(len(descs), 16, func(i int) {
-		copy1[i] = c06Build(descs[i])
-		copy2[i] = c06Build(descs[i])
-	})
-	// harness sanity: descriptor equality <=> signed-bytes equality
-	sbSeen := map[string]int{}
-	for i, m := range copy1 {
-		// the signer is not part of the signed bytes; everything else is
-		k := fmt.Sprintf("%d/%x", descs[i].Signer, m.sb)
-		if j, dup := sbSeen[k]; dup {
-			r.Sanity(false, "descriptors %v and %v have the same signed bytes", descs[i], descs[j])
-		}
-		sbSeen[k] = i
-		r.Sanity(bytes.Equal(m.sb, copy2[i].sb) && bytes.Equal(m.dsd.Bytes(), copy2[i].dsd.Bytes()), "copies of %v differ", descs[i])
-	}
-
-	// tx points: quick covers the pairs whose first message is signed by k1 at
-	// height 1 (the second ranges over the whole universe); thorough covers all
-	txAll := r.Thorough()
-	n := len(descs)
 	var classes sync.Map
-	var genuine, oneOff int64
 	var stop int32
-	ev.Par(n*n, 16, func(idx int) {
-		if atomic.LoadInt32(&stop) != 0 {
-			return
-		}
-		if idx%2048 == 0 && r.Expired() {
-			atomic.StoreInt32(&stop, 1)
-			return
-		}
-		i, j := idx/n, idx%n
-		a, b := copy1[i], copy2[j]
-		pts := map[string]bool{c06PConflict: true, c06PLog: true}
-		if txAll || (a.d.Signer == 0 && a.d.Height == 1) {
-			pts[c06PDirect] = true
-			pts[c06PParsed] = true
-		}
-		c.pair(a, b, pts)
-		failed := c06Genuine(a.d, b.d)
-		if len(failed) <= 1 {
-			r.Nontrivial(fmt.Sprintf("%d/%d", i, j))
-			key := "genuine"
-			if len(failed) == 1 {
-				key = "only-" + failed[0] + "-fails"
-				atomic.AddInt64(&oneOff, 1)
-			} else {
-				atomic.AddInt64(&genuine, 1)
+	var universes []map[string]interface{}
+	// runPairs enumerates all ordered pairs of the universe; the two transaction
+	// points run on the pairs selected by txSel.
+	runPairs := func(name string, descs []c06Desc, txSel func(a c06Desc) bool) (copy1 []*c06Msg) {
+		copy1 = make([]*c06Msg, len(descs))
+		copy2 := make([]*c06Msg, len(descs))
+		ev.Par(len(descs), 16, func(i int) {
+			copy1[i] = c06Build(descs[i])
+			copy2[i] = c06Build(descs[i])
+		})
+		// harness sanity: descriptor equality <=> signed-bytes equality
+		sbSeen := map[string]int{}
+		for i, m := range copy1 {
+			// the signer is not part of the signed bytes; everything else is
+			k := fmt.Sprintf("%d/%x", descs[i].Signer, m.sb)
+			if j, dup := sbSeen[k]; dup {
+				r.Sanity(false, "descriptors %v and %v have the same signed bytes", descs[i], descs[j])
 			}
-			cnt, _ := classes.LoadOrStore(key, new(int64))
-			atomic.AddInt64(cnt.(*int64), 1)
+			sbSeen[k] = i
+			r.Sanity(bytes.Equal(m.sb, copy2[i].sb) && bytes.Equal(m.dsd.Bytes(), copy2[i].dsd.Bytes()), "copies of %v differ", descs[i])
 		}
-	})
+		n := len(descs)
+		var txPairs int64
+		ev.Par(n*n, 16, func(idx int) {
+			if atomic.LoadInt32(&stop) != 0 {
+				return
+			}
+			if idx%2048 == 0 && r.Expired() {
+				atomic.StoreInt32(&stop, 1)
+				return
+			}
+			i, j := idx/n, idx%n
+			a, b := copy1[i], copy2[j]
+			pts := map[string]bool{c06PConflict: true, c06PLog: true}
+			if txSel(a.d) {
+				pts[c06PDirect] = true
+				pts[c06PParsed] = true
+				atomic.AddInt64(&txPairs, 1)
+			}
+			c.pair(a, b, pts)
+			failed := c06Genuine(a.d, b.d)
+			if len(failed) <= 1 {
+				r.Nontrivial(fmt.Sprintf("%v/%v", a.d, b.d))
+				key := "genuine"
+				if len(failed) == 1 {
+					key = "only-" + failed[0] + "-fails"
+				}
+				cnt, _ := classes.LoadOrStore(name+":"+key, new(int64))
+				atomic.AddInt64(cnt.(*int64), 1)
+			}
+		})
+		universes = append(universes, map[string]interface{}{"name": name, "messages": n, "ordered_pairs": n * n, "pairs_through_tx_points": txPairs, "complete": atomic.LoadInt32(&stop) == 0})
+		return copy1
+	}
+	// base universe. quick: tx points on the pairs whose first message is signed
+	// by k1 at height 1 (second message ranges over everything); thorough: all pairs.
+	txAll := r.Thorough()
+	descs := c06Universe(2, 2, 2, 3)
+	copy1 := runPairs("base", descs, func(a c06Desc) bool { return txAll || (a.Signer == 0 && a.Height == 1) })
+	if r.Thorough() && atomic.LoadInt32(&stop) == 0 {
+		// extended universe: 3 signers x 3 heights x 3 rounds x 4 nids; tx points on
+		// the slice whose first message is (k1, height 1, round 0)
+		runPairs("extended", c06Universe(3, 3, 3, 4), func(a c06Desc) bool { return a.Signer == 0 && a.Height == 1 && a.Round == 0 })
+	}
+	n := len(descs)
 	complete := stop == 0
 
 	// triples inside one key group
@@ -530,8 +541,8 @@ func TestVerifC06(t *testing.T) {
 	cls := map[string]int64{}
 	classes.Range(func(k, v interface{}) bool { cls[k.(string)] = *(v.(*int64)); return true })
 	r.Set("pair_classes", cls)
-	r.Set("messages", n)
-	r.Set("ordered_pairs", n*n)
+	r.Set("universes", universes)
+	_ = n
 	r.Set("dsmlog_triples", triples)
 	pts := []string{c06PConflict, c06PLog, c06PDirect, c06PParsed, c06PLog3}
 	acc := map[string]int64{}
@@ -543,24 +554,24 @@ func TestVerifC06(t *testing.T) {
 	r.Set("accepted_as_evidence", acc)
 	r.Set("rejected", rej)
 	r.Set("tx_points_cover_all_pairs", txAll)
-	if complete {
+	if complete && r.Violations() == 0 {
 		var keys []string
 		for k := range cls {
 			keys = append(keys, k)
 		}
 		sort.Strings(keys)
-		r.Sanity(len(keys) == 7, "expected genuine + 6 one-clause classes, got %v", keys)
+		r.Sanity(len(keys) == 7*len(universes), "expected genuine + 6 one-clause classes per universe, got %v", keys)
 		for i := range pts {
 			r.Sanity(c.accepted[i] > 0 && c.rejected[i] > 0, "point %s accepted=%d rejected=%d", pts[i], c.accepted[i], c.rejected[i])
 		}
 	}
-	a, b := copy1[0], copy2[1]
+	a, b := copy1[0], copy1[1]
 	r.Sample(map[string]interface{}{"a": a.d, "b": b.d, "genuine": len(c06Genuine(a.d, b.d)) == 0, "IsConflictWith": a.dsd.IsConflictWith(b.dsd)})
 	for i, d := range descs {
 		if d.Kind == 1 && d.NID == 1 && d.Dec == 0 {
 			for j, e := range descs {
 				if e.Kind == 1 && e.NID == 2 && e.Dec == 1 && e.Signer == d.Signer && e.Height == d.Height && e.Round == d.Round {
-					r.Sample(map[string]interface{}{"a": d, "b": e, "statement_fails": c06Genuine(d, e), "IsConflictWith": copy1[i].dsd.IsConflictWith(copy2[j].dsd)})
+					r.Sample(map[string]interface{}{"a": d, "b": e, "statement_fails": c06Genuine(d, e), "IsConflictWith": copy1[i].dsd.IsConflictWith(copy1[j].dsd)})
 					goto done
 				}
 			}
